@@ -6,20 +6,18 @@ Import ListNotations.
 Open Scope N_scope.
 
 (* A refused operation returns the state it was given: every operation, every argument, every state that satisfies the
-   datastore-bridge invariant `wf` (below), hence every state reached by a history whose steps are safe -- with ONE exception that
-   the invariant does not exclude: an ingest naming an id the datastore already knows (`reingest_known`; refuted below). *)
-Theorem refused_unchanged : forall s o s' e, wf s -> reingest_known s o = false -> step s o = (s', Err e) -> s' = s.
+   datastore-bridge invariant `wf` (below), hence every state reached by a history whose steps are safe.  No exception: since
+   /repo 2da36a1 this includes the ingest of a dataset the datastore already holds (before: refuted_without_fix below). *)
+Theorem refused_unchanged : forall s o s' e, wf s -> step s o = (s', Err e) -> s' = s.
 Proof. exact refused_unchanged_l. Qed.
 Print Assumptions refused_unchanged.
 
-Theorem refused_unchanged_all_histories : forall h o s' e, hist_safe init h = true -> reingest_known (run_hist h) o = false ->
-  step (run_hist h) o = (s', Err e) -> s' = run_hist h.
-Proof. intros h o s' e S K H. apply (refused_unchanged_l _ o s' e); [apply wf_reachable; exact S | exact K | exact H]. Qed.
+Theorem refused_unchanged_all_histories : forall h o s' e, hist_safe init h = true -> step (run_hist h) o = (s', Err e) -> s' = run_hist h.
+Proof. intros h o s' e S H. apply (refused_unchanged_l _ o s' e); [apply wf_reachable; exact S | exact H]. Qed.
 Print Assumptions refused_unchanged_all_histories.
 
 (* Without the invariant exactly one refusal changes something: a put of a dataset that has a location row but no records. *)
-Theorem refused_unchanged_unless_recordless_put : forall s o s' e, put_on_recordless s o = false -> reingest_known s o = false ->
-  step s o = (s', Err e) -> s' = s.
+Theorem refused_unchanged_unless_recordless_put : forall s o s' e, put_on_recordless s o = false -> step s o = (s', Err e) -> s' = s.
 Proof. exact refused_unchanged_raw. Qed.
 Print Assumptions refused_unchanged_unless_recordless_put.
 
@@ -239,18 +237,27 @@ Proof.
 Qed.
 Print Assumptions exists_carried_truthful_refuted.
 
-(* REFUTED even under the invariant: an ingest that names a dataset the datastore holds is refused AFTER the file was copied over the
-   artifact of its first ref, and the rollback removes the file: the stored dataset stays RECORDED | DATASTORE with a location row,
-   its artifact is gone.  Replayed on the implementation (corpus 10): known finding K-C10-refused-reingest = /repo F-C01-reingest. *)
-Theorem refused_reingest_deletes_artifact_refuted : exists h d1 d2 r k s',
-  hist_safe init h = true /\ step (run_hist h) (Ingest d1 d2 r k) = (s', Err Conflict) /\
-  exists_flags (run_hist h) d1 = (true, true, true) /\ exists_flags s' d1 = (true, true, false) /\ located s' d1 = true /\ s' <> run_hist h.
+(* The ingest of a dataset the datastore already holds -- a location row OR a records row for either id, in ANY state, no invariant
+   needed -- is refused and changes nothing: registry, bridge tables, records, datastore root (code as repaired in /repo 2da36a1:
+   FileDatastore._refuse_datasets_already_stored looks both tables up before any file is transferred). *)
+Theorem ingest_of_held_dataset_refused_unchanged : forall s d1 d2 r k,
+  has_rec s d1 || memN d1 (loc s) || (has_rec s d2 || memN d2 (loc s)) = true -> exists e, step s (Ingest d1 d2 r k) = (s, Err e).
+Proof. exact ingest_of_held_refused_l. Qed.
+Print Assumptions ingest_of_held_dataset_refused_unchanged.
+
+(* REFUTED WITHOUT THE FIX: with the datastore half as coded before 2da36a1 (file copied over the target first, insert fails, the
+   rollback removes the file) the refused ingest of a stored dataset deletes its artifact, after a SAFE history: the dataset stays
+   RECORDED | DATASTORE with a location row, _ARTIFACT is gone -- while the repaired step returns the state unchanged.
+   (Former known finding K-C10-refused-reingest = F-C01-reingest; regression case corpus 10.) *)
+Theorem refused_reingest_refuted_without_fix : exists h d1 d2 r k s',
+  hist_safe init h = true /\ ingest_before_fix (run_hist h) d1 d2 r k = (s', Err Conflict) /\
+  exists_flags (run_hist h) d1 = (true, true, true) /\ exists_flags s' d1 = (true, true, false) /\ located s' d1 = true /\ s' <> run_hist h /\
+  step (run_hist h) (Ingest d1 d2 r k) = (run_hist h, Err Conflict).
 Proof.
   exists [RegColl 0 Run; Put 0 0 0], 0, 1, 0, 0. eexists.
-  split; [vm_compute; reflexivity | split; [vm_compute; reflexivity | split; [vm_compute; reflexivity | split; [vm_compute; reflexivity | split; [vm_compute; reflexivity |]]]]].
-  vm_compute. discriminate.
+  split; [vm_compute; reflexivity | split; [vm_compute; reflexivity | split; [vm_compute; reflexivity | split; [vm_compute; reflexivity | split; [vm_compute; reflexivity | split; [vm_compute; discriminate | vm_compute; reflexivity]]]]]].
 Qed.
-Print Assumptions refused_reingest_deletes_artifact_refuted.
+Print Assumptions refused_reingest_refuted_without_fix.
 
 (* REFUTED without the invariant (the stale row of K-C10-stale-trash-row seen by the removal clause itself): after a trash and a
    removeRuns(unstore=False) the trash row has no records; a purge naming the id returns Ok, the dataset is `gone` as far as every
